@@ -1502,6 +1502,11 @@ class Wrapc(util.WrapperMixin):
             if var_typemap:
                 for include in var_typemap.cxx_header:
                     self.capsule_include[include] = True
+                if var_typemap.base == "shadow" and var_typemap.impl_header:
+                    # The code which deletes an instance of a class is
+                    # written in the library file, which needs the
+                    # headers of the class in the order given.
+                    self.capsule_typedef_nodes[var_typemap.name] = var_typemap
 
         return self.capsule_code[name][0]
 
